@@ -89,12 +89,64 @@ def run_cvc5(smt2, timeout_ms):
             pass
 
 
+def _symbols(t, acc=None, seen=None):
+    acc = set() if acc is None else acc
+    seen = set() if seen is None else seen
+    stack = [t]
+    while stack:
+        u = stack.pop()
+        i = u.get_id()
+        if i in seen:
+            continue
+        seen.add(i)
+        if z3.is_app(u):
+            d = u.decl()
+            if d.kind() == z3.Z3_OP_UNINTERPRETED:
+                acc.add(d.name())
+            stack.extend(u.children())
+        elif z3.is_quantifier(u):
+            stack.append(u.body())
+    return acc
+
+
+def relevant_pc(ob, depth):
+    """hypotheses within `depth` symbol-sharing steps of the goal (dropping hypotheses is always sound)"""
+    syms = _symbols(ob.goal)
+    psyms = [(_symbols(t), t) for t in ob.pc]
+    chosen = [False] * len(psyms)
+    for _ in range(depth):
+        new = set()
+        for j, (ss, t) in enumerate(psyms):
+            if not chosen[j] and (ss & syms or not ss):
+                chosen[j] = True
+                new |= ss
+        if not new - syms:
+            break
+        syms |= new
+    return [t for j, (ss, t) in enumerate(psyms) if chosen[j]]
+
+
 def discharge(ob, timeout_ms=20000, use_cvc5=True, cross=False):
     """sets ob.verdict: 'proved' | 'refuted' | 'unknown'"""
     t0 = time.time()
     if z3.is_true(z3.simplify(ob.goal)):
         ob.verdict, ob.backend, ob.time_s = "proved", "simplifier", time.time() - t0
         return ob
+    # 1. quick attempts from the hypotheses closest to the goal (relevance filter; sound: fewer assumptions)
+    if len(ob.pc) > 40 and not cross:
+        for depth, budget in ((1, 1500), (2, 3000)):
+            sub = relevant_pc(ob, depth)
+            if len(sub) >= len(ob.pc):
+                break
+            s1 = z3.Solver()
+            s1.set("timeout", budget)
+            for t in sub:
+                s1.add(t)
+            s1.add(z3.Not(ob.goal))
+            if s1.check() == z3.unsat:
+                ob.verdict, ob.backend, ob.time_s = "proved", "z3-" + z3.get_version_string(), time.time() - t0
+                ob.note = "relevance-filtered hypotheses (%d of %d, depth %d)" % (len(sub), len(ob.pc), depth)
+                return ob
     s = _mk_solver(ob, timeout_ms)
     r = s.check()
     ob.time_s = time.time() - t0
